@@ -17,56 +17,78 @@ TRUSTED = [
 ASSUMPTIONS = ["coordinates and drop counts are Python ints (floats/bools/subclasses of Move not covered)"]
 
 
-def _cases(ctx):
-    rng = ctx.rng
+def _plan(ctx):
+    """list of independent work units (size, n_games, n_constructed, n_illformed, exhaustive_ill, unit_seed)"""
     if ctx.thorough:
-        plan = {3: (30, 10), 4: (24, 8), 5: (14, 6), 6: (6, 4), 7: (2, 2), 8: (1, 1)}
-        ill_n = 400
+        plan = {3: (200, 40), 4: (160, 40), 5: (110, 30), 6: (60, 20), 7: (20, 10), 8: (10, 6)}
+        ill_n, chunk = 400, 4
     else:
-        plan = {3: (6, 4), 4: (5, 3), 5: (3, 2), 6: (2, 1), 7: (1, 1), 8: (0, 1)}
-        ill_n = 120
+        plan = {3: (24, 8), 4: (20, 8), 5: (12, 6), 6: (8, 4), 7: (3, 2), 8: (1, 1)}
+        ill_n, chunk = 150, 3
+    units = []
     for size, (ngames, ncons) in plan.items():
-        universe = gen.wellformed_moves(size)
-        sample = gen.sample_positions(rng, [size], ngames, per_game=5, constructed_per_size=ncons)
-        for label, pos in sample:
-            ctx.count("pos:size%d" % size)
-            ctx.count("pos:" + label.split(":")[0])
-            for m in universe:
-                yield label, pos, m
-            for m in gen.illformed_moves(rng, size, ill_n, pos):
-                yield "ill", pos, m
-    # bounded-exhaustive ill-formed neighbourhood on a few positions
+        g, c = ngames, ncons
+        while g > 0 or c > 0:
+            units.append((size, min(g, chunk), min(c, chunk), ill_n, 0, ctx.rng.getrandbits(48)))
+            g, c = max(0, g - chunk), max(0, c - chunk)
     for size in (3, 5) if not ctx.thorough else (3, 4, 5, 6, 8):
-        for label, pos in gen.sample_positions(rng, [size], 1, per_game=2, constructed_per_size=1):
-            for m in gen.illformed_moves_exhaustive(size, maxlen=2 if ctx.thorough else 1):
-                yield "ill-exh", pos, m
+        units.append((size, 1, 1, 0, 2 if ctx.thorough else 1, ctx.rng.getrandbits(48)))
+    return units
+
+
+def _run_unit(unit):
+    """runs in a worker process: generate cases, run the implementation, return text rows"""
+    import random
+
+    size, ngames, ncons, ill_n, exh, useed = unit
+    rng = random.Random(useed)
+    rows = []  # (pos_str, move_str, label, impl_out)
+    labels = {}
+    universe = gen.wellformed_moves(size)
+    sample = gen.sample_positions(rng, [size], ngames, per_game=5 if not exh else 2, constructed_per_size=ncons)
+    for label, pos in sample:
+        labels["pos:size%d" % size] = labels.get("pos:size%d" % size, 0) + 1
+        labels["pos:" + label.split(":")[0]] = labels.get("pos:" + label.split(":")[0], 0) + 1
+        ps = ser.pos_str(pos)
+        if exh:
+            for m in gen.illformed_moves_exhaustive(size, maxlen=exh):
+                rows.append((ps, ser.move_str(m), "ill-exh", implrun.move_out(pos, m)))
+            continue
+        for m in universe:
+            rows.append((ps, ser.move_str(m), label, implrun.move_out(pos, m)))
+        for m in gen.illformed_moves(rng, size, ill_n, pos):
+            rows.append((ps, ser.move_str(m), "ill", implrun.move_out(pos, m)))
+    model_out = driver.run_lines(["move apply %s %s" % (r[0], r[1]) for r in rows])
+    return rows, model_out, labels
 
 
 def tie(ctx):
-    lines, impl_out, meta = [], [], []
-    for label, pos, m in _cases(ctx):
-        ps, ms = ser.pos_str(pos), ser.move_str(m)
-        lines.append("move apply %s %s" % (ps, ms))
-        out = implrun.move_out(pos, m)
-        impl_out.append(out)
-        meta.append((ps, ms, label))
-    model_out = driver.run_lines(lines)
+    import multiprocessing as mp
+    import os
+
+    units = _plan(ctx)
+    nproc = min(len(units), os.cpu_count() or 4, 16 if ctx.thorough else 8)
+    with mp.get_context("fork").Pool(nproc) as pool:
+        results = pool.map(_run_unit, units, chunksize=1)
     divs = []
-    for (ps, ms, label), io, mo in zip(meta, impl_out, model_out):
-        ctx.evaluated()
-        kind = io.split(" ", 1)[0]
-        ctx.count("outcome:" + kind)
-        if label.startswith("ill"):
-            ctx.count("illformed")
-        if kind == "ok":
-            ctx.nontrivial(ps + "|" + ms)
-            mt = int(ms.split(" ")[2])
-            ctx.count("accepted:slide" if mt >= 4 else "accepted:place")
-        if io != mo:
-            divs.append(Divergence("corr.move", {"pos": ps, "move": ms}, io, mo))
-    # samples
-    for (ps, ms, label), io in list(zip(meta, impl_out))[:: max(1, len(meta) // 5)]:
-        ctx.sample({"pos": ps, "move": ms, "impl": io})
+    k = 0
+    for rows, model_out, labels in results:
+        for key, n in labels.items():
+            ctx.count(key, n)
+        for (ps, ms, label, io), mo in zip(rows, model_out):
+            ctx.evaluated()
+            kind = io.split(" ", 1)[0]
+            ctx.count("outcome:" + kind)
+            if label.startswith("ill"):
+                ctx.count("illformed")
+            if kind == "ok":
+                ctx.nontrivial(ps + "|" + ms)
+                ctx.count("accepted:slide" if int(ms.split(" ")[2]) >= 4 else "accepted:place")
+            if io != mo:
+                divs.append(Divergence("corr.move", {"pos": ps, "move": ms}, io, mo))
+            k += 1
+            if k % 50021 == 1:
+                ctx.sample({"pos": ps, "move": ms, "impl": io})
     return divs
 
 
